@@ -59,6 +59,17 @@ def _small_helpers(mod, fn, known: Dict[str, str]) -> Dict[str, Any]:
     return out
 
 
+def meta_aliases() -> Dict[Sym, Sym]:
+    """the metadata of the field a key belongs to, however it is looked up: table[$fname] (KeyError = unknown key) or
+    table.get($fname) (None = unknown key)"""
+    out: Dict[Sym, Sym] = {}
+    for owner in ("cls", "self"):
+        tbl = A(A(N(owner), "_betterproto"), "meta_by_field_name")
+        out[("sub", tbl, N("$fname"))] = META
+        out[("call", A(tbl, "get"), (N("$fname"),), ())] = META
+    return out
+
+
 def fname_aliases() -> Dict[Sym, Sym]:
     """the field a key belongs to: safe_snake_case(key), or that behind a lookup of the key in the per-class key table
     (the shape of this expression is decided by I3; here it is only given the name $fname)"""
@@ -173,10 +184,10 @@ def rule_J1(ctx, rule: str = "J1") -> None:
 def _from_dict_classes(ctx, mod, t: str, shape: str) -> Set[str]:
     fn = mod.func("Message._from_dict_init")
     b: Dict[Sym, Any] = {}
-    al = {("sub", A(A(N("cls"), "_betterproto"), "meta_by_field_name"), N("$fname")): META}
+    al = dict(meta_aliases())
     value = N("$jvalue")
     islist = CALL(N("isinstance"), value, N("list"))
-    assume: Dict[Sym, bool] = {("op", "is", value, C(None)): False}
+    assume: Dict[Sym, bool] = {("op", "is", value, C(None)): False, ("op", "is", META, C(None)): False}
     if shape in ("singular", "repeated"):
         b[A(META, "proto_type")] = t
         b[A(META, "map_types")] = None
@@ -501,8 +512,7 @@ def rule_K3(ctx, rule: str = "K3") -> None:
 
 
 def _fdi_interp(mod, **kw):
-    al = {("sub", A(A(N("cls"), "_betterproto"), "meta_by_field_name"), N("$fname")): META,
-          **fname_aliases()}
+    al = {**meta_aliases(), **fname_aliases()}
     value = N("$jvalue")
 
     def roles(it: Sym, depth: int):
@@ -510,7 +520,9 @@ def _fdi_interp(mod, **kw):
             return [N("$key"), value]
         return None
 
-    return Interp(mod, aliases=al, loop_roles=roles, **kw)
+    assume = dict(kw.pop("assume", None) or {})
+    assume.setdefault(("op", "is", META, C(None)), False)      # a known field: its metadata exists
+    return Interp(mod, aliases=al, loop_roles=roles, assume=assume, **kw)
 
 
 def rule_J4(ctx) -> None:
